@@ -305,7 +305,8 @@ func hostTree(dir string) string {
 	return strings.Join(out, ",")
 }
 
-var names = []string{"a", "b", "c", "dd"}
+// (some names are string prefixes of others - "a"/"ab", "d"/"dd": a path is a sequence of names, not a string)
+var names = []string{"a", "b", "c", "dd", "d", "ab"}
 
 func randPath(rng *rand.Rand) string {
 	n := 1
@@ -475,6 +476,13 @@ func (g *gen) next() op {
 		p1, p2 := randPath(r), randPath(r)
 		if p1 == p2 {
 			p2 += "x"
+		}
+		if r.Intn(4) == 0 {
+			// the new name EXTENDS the old one as a string (e -> e2, s -> sx/y): not a move below itself
+			p2 = p1 + []string{"2", "x", "b"}[r.Intn(3)]
+			if r.Intn(3) == 0 {
+				p2 = names[r.Intn(len(names))] + "/" + p2
+			}
 		}
 		return op{Op: "rename", Fd: g.dirFd(), Path: p1, Fd2: g.dirFd(), Path2: p2}
 	default:
